@@ -34,7 +34,7 @@ ASSUMPTIONS = [
     "shown not to matter (hash_ignores_kw_order_export_order_length) but are not demanded by the oracle",
 ]
 RULE = ("expression trees generated over the four classes (TaskExpression, SchedulerExpression, SimpleExpression, ValueExpression) "
-        "with nested expression arguments, keyword arguments, option dicts, export-option sets and lengths, built as real objects; "
+        "with nested expression arguments, keyword arguments, option dicts (values incl. None, 0, "", [], {}, False), export-option sets and lengths, built as real objects; "
         "each real get_hash() pre-image (hash_struct wrapped) is compared with the model's; every expression is paired with "
         "single-component variants (kind, name, one argument changed/added/removed, two positional arguments swapped, positional "
         "moved to keyword, keyword value/name/removal, two keyword values swapped, options, exported options) whose real hashes "
@@ -58,6 +58,20 @@ TECHNIQUE = "Lean 4 proof on a hand-written model of the four _calc_hash and get
 NAMES = ["f", "ns.g", "redun.catch", "redun.cond", "h"]
 FUNCS = ["add", "getitem", "mul", "getattr", "eq", "ne", "and", "or", "sub", "radd"]
 OPTKEYS = ["cache_scope", "memory", "executor", "prov"]
+# option values: a label is the int itself, except these labels which stand for None and the other falsy values
+FALSY = {100: None, 101: 0, 102: "", 103: [], 104: {}, 105: False}
+FALSY_NAME = {100: "none", 101: "zero", 102: "empty-str", 103: "empty-list", 104: "empty-dict", 105: "false"}
+
+
+def optval(n):
+    return copy.deepcopy(FALSY[n]) if n in FALSY else n
+
+
+def optlabel(v):
+    for n, f in FALSY.items():
+        if type(v) is type(f) and v == f:
+            return n
+    return v
 
 
 # ------------------------------------------------------------------ generation (plain tuples, hashable)
@@ -71,7 +85,8 @@ def gen_node(rng, depth, top=False):
     kw = tuple((key, gen_node(rng, depth - 1)) for key in rng.sample(["a", "b", "k", "zz"], rng.choice([0, 0, 1, 2])))
     if k < 0.62:
         return ("simple", rng.choice(FUNCS), args, kw)
-    opts = tuple((key, rng.randrange(1, 9)) for key in rng.sample(OPTKEYS, rng.choice([0, 0, 1, 2])))
+    opts = tuple((key, rng.choice([100, 100, 101, 102, 103, 104, 105]) if rng.random() < 0.3 else rng.randrange(1, 9))
+                 for key in rng.sample(OPTKEYS, rng.choice([0, 0, 1, 2])))
     ex = tuple(rng.sample(OPTKEYS, rng.choice([0, 0, 0, 1, 2])))
     length = rng.choice([None, None, 2, 3])
     return ("task" if k < 0.82 else "sched", rng.choice(NAMES), args, kw, opts, ex, length)
@@ -119,7 +134,7 @@ class Real:
             _, f, args, kw = n
             return E.SimpleExpression(f, tuple(self.build(a) for a in args), {k: self.build(v) for k, v in kw})
         kind, name, args, kw, opts, ex, length = n
-        d = dict(opts)
+        d = {k: optval(v) for k, v in opts}
         dg = self.hash_bytes(self.pickle_dumps(d))
         self.log.leaf_opts(dg, list(opts))
         self.leaf(dg, "opts" + repr(list(opts)))
@@ -133,7 +148,7 @@ class Real:
         if isinstance(x, E.SchedulerExpression) or isinstance(x, E.TaskExpression):
             kind = "sched" if isinstance(x, E.SchedulerExpression) else "task"
             return (kind, x.task_name, tuple(self.unbuild(a) for a in x.args), tuple((k, self.unbuild(v)) for k, v in x.kwargs.items()),
-                    tuple(x._options.items()), tuple(sorted(x._export_options)), x._length)
+                    tuple((k, optlabel(v)) for k, v in x._options.items()), tuple(sorted(x._export_options)), x._length)
         if isinstance(x, E.SimpleExpression):
             return ("simple", x.func_name, tuple(self.unbuild(a) for a in x.args), tuple((k, self.unbuild(v)) for k, v in x.kwargs.items()))
         if isinstance(x, E.ValueExpression):
@@ -205,7 +220,14 @@ def variants(rng, n):
     for what, a2, k2 in arg_variants(rng, args, kw):
         yield what, (kind, name, a2, k2, opts, ex, length)
     yield "options-added", (kind, name, args, kw, opts + (("zopt", 3),), ex, length)
+    # a call-time option with a None / falsy value is not a no-op: it has top precedence and masks definition-time values
+    free = [k for k in ("executor", "memory", "zfalsy") if k not in dict(opts)]
+    yield "options-added-none", (kind, name, args, kw, opts + ((free[0], 100),), ex, length)
+    lab = rng.choice([101, 102, 103, 104, 105])
+    yield "options-added-" + FALSY_NAME[lab], (kind, name, args, kw, opts + ((free[-1], lab),), ex, length)
     if opts:
+        if opts[0][1] != 100:
+            yield "options-value-to-none", (kind, name, args, kw, ((opts[0][0], 100),) + opts[1:], ex, length)
         yield "options-value", (kind, name, args, kw, ((opts[0][0], opts[0][1] + 50),) + opts[1:], ex, length)
         yield "options-removed", (kind, name, args, kw, opts[1:], ex, length)
     yield "export-options-added", (kind, name, args, kw, opts, ex + ("zexport",), length)
@@ -232,6 +254,11 @@ def run(ctx):
         corpus.append(("simple", f, (("task", "f", (), (), (), (), None), ("value", 2)), ()))
     corpus.append(("task", "f", (("lit", 1), ("lit", 2)), (("a", ("lit", 3)), ("b", ("lit", 4))), (), (), None))
     corpus.append(("sched", "redun.cond", (("lit", 1), ("lit", 2), ("lit", 3)), (), (), (), None))
+    # t(x) vs t.options(executor=None)(x), and every other falsy option value
+    corpus.append(("task", "f", (("lit", 1),), (), (), (), None))
+    for lab in sorted(FALSY):
+        corpus.append(("task", "f", (("lit", 1),), (), (("executor", lab),), (), None))
+        corpus.append(("sched", "redun.catch", (("lit", 1),), (), (("cache_scope", lab), ("memory", 2)), (), None))
     nodes = corpus + [gen_node(rng, rng.choice([1, 2, 2, 3]), top=True) for _ in range(ctx.n(500, 25000))]
     reqs, plan = [], []
     with log:
